@@ -213,6 +213,19 @@ func caseVmsaValues(q *x) {
 	if !allEq(page[vmsaref.Size:], canary) {
 		q.viol(entryVmsa, "wrote-beyond-abi-size", witness, "PutVmsa wrote behind offset %#x", vmsaref.Size)
 	}
+	if len(present) > 0 { // the reserved byte strings as heads of buffers with dirty spare capacity
+		var recs []dirtyRec
+		one := proto.Clone(v).(*spb.VmcbSaveArea)
+		for name := range present {
+			f, _ := vmsaref.Lookup(name)
+			setBytes(one.ProtoReflect(), name, dirty(make([]byte, f.Size), &recs))
+		}
+		page2 := bytes.Repeat([]byte{canary}, size)
+		var e2 error
+		if q.must(entryVmsa, func() { e2 = sev.PutVmsa(one, page2) }) {
+			q.judgeSpare(entryVmsa, "VMSA", page, page2, e2, recs)
+		}
+	}
 	if checkVmsaPage(q, page, want, witness) {
 		seen("encoding-equals-reference")
 		seen("vmsa-all-fields-decoded")
@@ -393,6 +406,14 @@ func casePageInfo(q *x) {
 		ref.Contents = sha512.Sum384(data)
 		if !q.must(entry, func() { err = ms.Update4K(gpa, data, pt) }) {
 			return
+		}
+	}
+	if !zero && err == nil { // the page contents as the head of a buffer with dirty spare capacity
+		var recs []dirtyRec
+		ms2 := &sev.SnpMeasurement{Product: prod, Digest: ref.DigestCur}
+		var e2 error
+		if q.must(entry, func() { e2 = ms2.Update4K(gpa, dirty(data, &recs), pt) }) {
+			q.judgeSpare(entry, "PAGE_INFO contents", ms.Digest[:], ms2.Digest[:], e2, recs)
 		}
 	}
 	wantDigest := sha512.Sum384(ref.Encode())
